@@ -12,6 +12,14 @@ CLAIMED = {
              'numerical agreement of commitments/evaluations is not decided.',
         note=STATIC_NOTE + ' Golden schedule and the four domain alias tables are in analysis/tables.py.',
         technique='static analysis: HIR effect-schedule extraction + shape inference + normal-form comparison (sibling duality)'),
+    'C02': dict(
+        text='Static COVER and sibling rules: each of the four checkers of a constraint system (prover numerator, verifier, in-circuit verifier, mock checker) '
+             'reads every constraint class (gates, permutation, lookups, trashcans) outside shape-only helpers; verifier-side identity-group counts per argument '
+             'are at least the protocol\'s; the expected quotient evaluation is folded, divided by x^n-1, stored and opened; every evaluation read after x is both '
+             'opened and used in an identity; copy constraints reach the permutation assembly. Necessary conditions for "every constraint class is enforced"; '
+             'the algebra of each identity is not decided.',
+        note=STATIC_NOTE,
+        technique='static analysis: MIR field-read coverage over call closures + HIR structural counts + must-call'),
     'C03': dict(
         text='Static rules (must-call, who-may-call, CHECKED decoders, field COVER, dominance guards) over the resolved program: '
              'every decoded proof element is absorbed, decoders are the checked ones, the vk identity covers every part of the key, '
